@@ -13,8 +13,9 @@ def rdW : NRd → Nat
   | .reading => 1
   | _ => 0
 
-/-- Work left for kernel goroutine and reader before the reader blocks. -/
-def nmu (s : NSt β) : Nat := 4 * s.evq.length + 2 * (s.pw + s.pd) + rdW s.rd
+/-- Work left for kernel goroutine and reader before the reader blocks (one dispatched event leaves at most
+    two tokens: a Create raises both signals in re-open mode). -/
+def nmu (s : NSt β) : Nat := 5 * s.evq.length + 2 * (s.pw + s.pd) + rdW s.rd
 
 def unreadLen (s : NSt β) : Nat :=
   match s.f with
@@ -25,11 +26,13 @@ theorem sendNB_le_succ (cap n : Nat) : sendNB cap n ≤ n + 1 := by
   unfold sendNB; split <;> omega
 
 theorem dispatch1_pw_pd (cfg : NCfg) (s : NSt β) (e : Ev) :
-    (dispatch1 cfg s e).pw + (dispatch1 cfg s e).pd ≤ s.pw + s.pd + 1 := by
+    (dispatch1 cfg s e).pw + (dispatch1 cfg s e).pd ≤ s.pw + s.pd + 2 := by
   cases e <;> simp only [dispatch1]
   · have := sendNB_le_succ cfg.capW s.pw; omega
   · have := sendNB_le_succ cfg.capD s.pd; omega
-  · have := sendNB_le_succ cfg.capW s.pw; omega
+  · have := sendNB_le_succ cfg.capW s.pw
+    have := sendNB_le_succ cfg.capD s.pd
+    split <;> omega
   · omega
 
 @[simp] theorem onWrite_evq (s : NSt β) : (onWrite cfg s).evq = s.evq := by simp only [onWrite]; split <;> rfl
@@ -87,14 +90,17 @@ theorem unread_progress {s : NSt β} (h : NInv cfg ex st0 s) (x : Handle) (hf : 
 
 /-- While the file is in place a non-delivering step of kernel goroutine / reader leaves the file,
     the handle and `removes` alone. -/
-theorem sys_step_inplace {w : Who} {s s' : NSt β} (h : NInv cfg ex st0 s) (hw : w ≠ .writer)
+theorem sys_step_inplace {w : Who} {s s' : NSt β} (h : NInv cfg ex st0 s) (hex : ex = true) (hw : w ≠ .writer)
     (hs : NStep cfg w s s') (hr : s.removes = 0) (x : Handle) (hf : s.f = some x) :
     (∃ bs, bs ≠ [] ∧ s'.delivered = s.delivered ++ bs) ∨
     (nmu s' < nmu s ∧ s'.f = s.f ∧ s'.fs = s.fs ∧ s'.removes = s.removes ∧ s'.delivered = s.delivered ∧ s'.rd ≠ .ended) := by
   have hpd : s.pd = 0 := by
     cases hp : s.pd with
     | zero => rfl
-    | succ k => have := h.dSig (Or.inl (by omega)); omega
+    | succ k =>
+      rcases h.dSig (Or.inl (by omega)) with h1 | ⟨_, h2⟩
+      · omega
+      · rw [h2] at hex; cases hex
   rcases nstep_measure hw hs with hm | hm
   · exact Or.inl hm
   · right
@@ -129,31 +135,31 @@ theorem NSysReach.trans {s s' s'' : NSt β} (h1 : NSysReach cfg s s') (h2 : NSys
 /-- Under a silent writer, unread bytes of the file in place are delivered after finitely many steps
     of kernel goroutine and reader: the reader cannot block for ever in front of unread data. -/
 theorem eventually_delivered_aux (hW : 1 ≤ cfg.capW) (hD : 1 ≤ cfg.capD) :
-    ∀ (k : Nat) (s : NSt β), nmu s ≤ k → NInv cfg ex st0 s → s.removes = 0 → ∀ x, s.f = some x →
+    ∀ (k : Nat) (s : NSt β), nmu s ≤ k → NInv cfg ex st0 s → ex = true → s.removes = 0 → ∀ x, s.f = some x →
       unread s.fs x ≠ [] → s.rd ≠ .ended →
       ∃ s' bs, NSysReach cfg s s' ∧ bs ≠ [] ∧ s'.delivered = s.delivered ++ bs := by
   intro k
   induction k with
   | zero =>
-    intro s hk h hr x hf hu hne
+    intro s hk h hex hr x hf hu hne
     obtain ⟨w, s1, hw, hs⟩ := unread_progress h x hf hu hne
-    rcases sys_step_inplace h hw hs hr x hf with ⟨bs, hb, hd⟩ | ⟨hm, _⟩
+    rcases sys_step_inplace h hex hw hs hr x hf with ⟨bs, hb, hd⟩ | ⟨hm, _⟩
     · exact ⟨s1, bs, .step hw hs (.refl _), hb, hd⟩
     · omega
   | succ k ih =>
-    intro s hk h hr x hf hu hne
+    intro s hk h hex hr x hf hu hne
     obtain ⟨w, s1, hw, hs⟩ := unread_progress h x hf hu hne
-    rcases sys_step_inplace h hw hs hr x hf with ⟨bs, hb, hd⟩ | ⟨hm, hf1, hfs1, hr1, hd1, hne1⟩
+    rcases sys_step_inplace h hex hw hs hr x hf with ⟨bs, hb, hd⟩ | ⟨hm, hf1, hfs1, hr1, hd1, hne1⟩
     · exact ⟨s1, bs, .step hw hs (.refl _), hb, hd⟩
     · have h1 := ninv_step hW hD h hs
-      obtain ⟨s2, bs, hreach, hb, hd⟩ := ih s1 (by omega) h1 (by rw [hr1]; exact hr) x (by rw [hf1]; exact hf)
+      obtain ⟨s2, bs, hreach, hb, hd⟩ := ih s1 (by omega) h1 hex (by rw [hr1]; exact hr) x (by rw [hf1]; exact hf)
         (by rw [hfs1]; exact hu) hne1
       exact ⟨s2, bs, .step hw hs hreach, hb, by rw [hd, hd1]⟩
 
 theorem eventually_delivered (hW : 1 ≤ cfg.capW) (hD : 1 ≤ cfg.capD) {s : NSt β} (h : NInv cfg ex st0 s)
-    (hr : s.removes = 0) (x : Handle) (hf : s.f = some x) (hu : unread s.fs x ≠ []) (hne : s.rd ≠ .ended) :
+    (hex : ex = true) (hr : s.removes = 0) (x : Handle) (hf : s.f = some x) (hu : unread s.fs x ≠ []) (hne : s.rd ≠ .ended) :
     ∃ s' bs, NSysReach cfg s s' ∧ bs ≠ [] ∧ s'.delivered = s.delivered ++ bs :=
-  eventually_delivered_aux hW hD (nmu s) s (Nat.le_refl _) h hr x hf hu hne
+  eventually_delivered_aux hW hD (nmu s) s (Nat.le_refl _) h hex hr x hf hu hne
 
 @[simp] theorem onWrite_fs (s : NSt β) : (onWrite cfg s).fs = s.fs := by simp only [onWrite]; split <;> rfl
 @[simp] theorem onWrite_removes (s : NSt β) : (onWrite cfg s).removes = s.removes := by simp only [onWrite]; split <;> rfl
@@ -250,7 +256,10 @@ theorem reopen_progress {s : NSt β} (h : NInv cfg ex st0 s) (hre : cfg.reopen =
         have hne : s.fs.path ≠ some x.ino := by
           intro he; rw [hp] at he; simp only [Option.some.injEq] at he
           exact hno ⟨x, hf, he.symm⟩
-        exact Or.inr (Or.inr (h.gone x hf hne))
+        rcases h.gone x hf hne with h1 | h1 | ⟨_, h1⟩
+        · exact Or.inr (Or.inr (Or.inl h1))
+        · exact Or.inr (Or.inr (Or.inr h1))
+        · exact Or.inr (Or.inl h1)
     have hq : ∀ e, e ∈ s.evq → ∃ w s', w ≠ Who.writer ∧ NStep cfg w s s' := by
       intro e he
       cases hev : s.evq with
